@@ -233,6 +233,7 @@ def run_c15(ck, fb, fbd):
     opposite_rule(ck, fb)
     four_vertices_rule(ck, fb)
     tet_vertex_iter_rule(ck, fb)
+    collapse_cells_rule(ck, fb)
     # split_edge / split_face / collapse_edge delete cells in deferred mode and add new ones on the same halffaces: the
     # delete core must not reset a halfface's incident cell that already names the replacement (shared with C01/C02/C04)
     from . import lockstep
@@ -409,6 +410,113 @@ def tet_vertex_iter_rule(ck, fb):
     got = sorted((k, j) for k, j, x in pairs)
     ok = got == [(0, 0), (1, 1), (2, 2), (3, 3)]
     (ck.ok if ok else lambda r_, w_, t_: ck.violate(r_, w_, t_, "C15.tviter:slots"))("C15.tviter", f.where, "TetVertexIter: vertices_[k] = get_cell_vertices(cell)[k] for k = 0..3 (found %s)" % got)
+
+
+def _top_split(s_, sep):
+    """split s_ at the first top-level occurrence of sep"""
+    d = 0
+    for k, ch in enumerate(s_):
+        if ch in "([":
+            d += 1
+        elif ch in ")]":
+            d -= 1
+        elif d == 0 and s_.startswith(sep, k):
+            return s_[:k], s_[k + len(sep):]
+    return None
+
+
+def collapse_cells_rule(ck, fb):
+    """collapse_edge(a->b): which cells vanish, which are rebuilt, and how (a replaced by b, order kept)"""
+    from .canon import Canon
+    ck.rule("C15.collapse", "collapse_edge(h), a = from(h), b = to(h): the collapsing set holds the valid incident cells of the halffaces around h; every cell around a that is not in it is rebuilt - halfface i from halfedge j of the old halfface i, in order (orientation preserved), each endpoint replaced by b exactly when it equals a (from for from, to for to); the old cell is deleted, a is deleted after the loop and the new cells are added after that")
+    fs = [f for f in fb.by_cls.get(TET, []) if f.name == "collapse_edge" and f.has_cfg]
+    if len(fs) != 1:
+        raise AnalysisBroken("anchor vanished: TetrahedralMeshTopologyKernel::collapse_edge (%d)" % len(fs))
+    f = fs[0]
+    cn = Canon(f)
+    A, B = "halfedge(P0).from_vertex()", "halfedge(P0).to_vertex()"
+    # (a) collapsing set
+    csets = {cn._name[vid]: vid for vid, (v, b, i) in cn.decl.items() if re.match(r"std::(set|unordered_set)<OpenVolumeMesh::CH", v.get("t", "")) and vid in cn._name}
+    S = None
+    for nm, vid in csets.items():
+        for kind, b, i, m in cn.mods.get(vid, []):
+            if m.get("pn", "").split("::")[-1] in ("insert", "emplace") and m.get("a"):
+                arg = cn.s(m["a"][0])
+                mm = re.fullmatch(r"incident_cell\((\*it\d+\(hehf_iter\(P0(, 1)?\)\))\)", arg)
+                if mm and any(s_ == arg + ".is_valid()" and p_ is True for s_, p_, c_ in cn.facts(b)):
+                    S = nm
+    if S is None:
+        ck.cannot_judge("C15.collapse %s: no set of the valid incident cells of the halffaces around the halfedge is built - not judged" % f.where)
+        return
+    ck.ok("C15.collapse", f.where, "the collapsing set %s holds the valid incident cells of hehf_iter(h)" % S)
+    # (c) the rebuilt halfedges
+    adds = [(b, i, x) for b, i, x in f.nodes(("call",)) if x.get("pn", "").endswith("::add_halfedge") and len(x.get("a", [])) == 2 and b in f.reach()]
+    seen = set()
+    judged = 0
+    for b, i, x in adds:
+        key = cn.s(x)
+        if key in seen:
+            continue
+        seen.add(key)
+        parts = []
+        for which, a_ in (("from_vertex", x["a"][0]), ("to_vertex", x["a"][1])):
+            t_ = cn.s(a_)
+            while t_.startswith("(") and t_.endswith(")") and _top_split(t_[1:-1], " ? "):
+                t_ = t_[1:-1]
+                break
+            q = _top_split(t_, " ? ")
+            r_ = _top_split(q[1], " : ") if q else None
+            parts.append((which, q[0] if q else None, r_[0] if r_ else None, r_[1] if r_ else None, t_))
+        if any(p_[1] is None or p_[2] is None for p_ in parts):
+            ck.cannot_judge("C15.collapse %s: the endpoints of a rebuilt halfedge are not written as `x == a ? b : x` (%s) - not judged" % (f.loc(x), parts[0][4][:70]))
+            continue
+        judged += 1
+        ok = True
+        why = []
+        Es = []
+        for which, cond, then, els, t_ in parts:
+            q = split_eq(cond)
+            E = None
+            if q and q[0] == "==" and A in (q[1], q[2]):
+                E = q[2] if q[1] == A else q[1]
+            if E is None or then != B or els != E or not E.endswith("." + which + "()"):
+                ok = False
+                why.append("%s endpoint: %s" % (which.split("_")[0], t_[:80]))
+            Es.append(E[:-len("." + which + "()")] if E and E.endswith("." + which + "()") else None)
+        if ok and Es[0] != Es[1]:
+            ok = False
+            why.append("from and to are taken from different halfedges")
+        mE = re.fullmatch(r"halfedge\(halfface\(cell\((.+)\)\.halffaces\(\)\[(it\d+)\(0\)\]\)\.halfedges\(\)\[(it\d+)\(0\)\]\)", Es[0] or "")
+        if ok and not mE:
+            ck.cannot_judge("C15.collapse %s: the old halfedge is not halfedge j of halfface i of the rebuilt cell (%s) - not judged" % (f.loc(x), (Es[0] or "")[:80]))
+            continue
+        (ck.ok if ok else lambda r_, w_, t_: ck.violate(r_, w_, t_, "C15.collapse:endpoints"))("C15.collapse", f.loc(x), "a rebuilt halfedge runs from (from == a ? b : from) to (to == a ? b : to) of the old halfedge%s" % ("" if ok else " - " + "; ".join(why)))
+        if ok:
+            C, I, J = mE.group(1), mE.group(2), mE.group(3)
+            fs_ = {(s_, p_) for s_, p_, c_ in cn.facts(b)}
+            # (b) which cells: every cell around a, not in the collapsing set
+            in_set = [(s_, p_) for s_, p_ in fs_ if S + ".find(" in s_ or S + ".count(" in s_]
+            okb = any(((split_eq(s_) or ("", "", ""))[0] == "!=" and p_ is False) or ((split_eq(s_) or ("", "", ""))[0] == "==" and p_ is True and ".find(" in s_) or (s_.startswith(S + ".count(") and p_ is False) for s_, p_ in in_set) and all(C in s_ for s_, p_ in in_set)
+            (ck.ok if okb else lambda r_, w_, t_: ck.violate(r_, w_, t_, "C15.collapse:which"))("C15.collapse", f.loc(x), "a cell is rebuilt exactly when it is not in the collapsing set (facts %s)" % [(s_[:60], p_) for s_, p_ in in_set][:2])
+            mC = re.fullmatch(r"each\((v\d+)\)", C)
+            okc = False
+            if mC:
+                for vid, nm in cn._name.items():
+                    if nm == mC.group(1):
+                        okc = any(re.fullmatch(r"\*it\d+\(vc_iter\(%s(, 1)?\)\)" % re.escape(A), cn.s(m["a"][0])) for kind, bb, ii, m in cn.mods.get(vid, []) if m.get("pn", "").split("::")[-1] in ("push_back", "emplace_back") and m.get("a"))
+            (ck.ok if okc else lambda r_, w_, t_: ck.violate(r_, w_, t_, "C15.collapse:around"))("C15.collapse", f.loc(x), "the candidates for rebuilding are all cells of vc_iter(a)")
+            # (d) order kept: bounds (i < 4), (j < 3) and no early exit from these loops
+            bounds = {s_ for s_, p_ in fs_ if p_ is True and re.fullmatch(r"\(it\d+\(0\) < \d\w*\)", s_)}
+            okd = ("(%s(0) < 4)" % I) in bounds and ("(%s(0) < 3)" % J) in bounds
+            (ck.ok if okd else lambda r_, w_, t_: ck.violate(r_, w_, t_, "C15.collapse:order"))("C15.collapse", f.loc(x), "halfface i = 0..3 and halfedge j = 0..2 are visited in order (%s)" % sorted(bounds))
+    if not judged and not adds:
+        ck.cannot_judge("C15.collapse %s: no add_halfedge call - the rebuild is written in another way" % f.where)
+    # (e) order of the destructive steps
+    dv = [(b, i) for b, i, x in f.nodes(("call",)) if x.get("pn", "").endswith("::delete_vertex") and b in f.reach() and cn.s(x["a"][0]) == A]
+    dc = [(b, i) for b, i, x in f.nodes(("call",)) if x.get("pn", "").endswith("::delete_cell") and b in f.reach()]
+    ac = [(b, i) for b, i, x in f.nodes(("call",)) if x.get("pn", "").endswith("::add_cell") and b in f.reach()]
+    oke = len(dv) == 1 and bool(dc) and bool(ac) and all(f.dominates(dv[0], p_) for p_ in ac) and not any(f.dominates(dv[0], p_) for p_ in dc)
+    (ck.ok if oke else lambda r_, w_, t_: ck.violate(r_, w_, t_, "C15.collapse:steps"))("C15.collapse", f.where, "old cells are deleted before delete_vertex(a), new cells are added after it (%d/%d/%d sites)" % (len(dc), len(dv), len(ac)))
 
 
 def opposite_rule(ck, fb):
